@@ -95,6 +95,19 @@ def read_packets(path):
     return out
 
 
+_stamps = {}
+
+
+def _bin_stamp(binp):
+    try:
+        st = os.stat(binp); k = (binp, st.st_mtime_ns, st.st_size)
+        if k not in _stamps:
+            _stamps[k] = hashlib.sha1(open(binp, 'rb').read()).hexdigest()[:16]
+        return _stamps[k]
+    except OSError:
+        return ''
+
+
 def run(binp, args, timeout=120, tag=None, env=None):
     """args: dict of scenario keys; cfg overrides as {'f:<field name>': value}. Returns dict(outcome, hist, prefix, wall)."""
     a = {}
@@ -106,7 +119,9 @@ def run(binp, args, timeout=120, tag=None, env=None):
             a['f%d' % field_index(k[2:])] = v
         else:
             a[k] = v
-    key = hashlib.sha1((binp + json.dumps(a, sort_keys=True) + json.dumps(env, sort_keys=True)).encode()).hexdigest()[:16]
+    # output files are named after the CONTENT of the driver binary as well: results cached for one build of the library must never point at
+    # files written by another build (a change applied and reverted would otherwise leave the cached verdicts reading the other build's packets)
+    key = hashlib.sha1((binp + _bin_stamp(binp) + json.dumps(a, sort_keys=True) + json.dumps(env, sort_keys=True)).encode()).hexdigest()[:16]
     d = os.path.join(SCN_DIR, 'runs'); os.makedirs(d, exist_ok=True)
     prefix = os.path.join(d, (tag or 's') + '_' + key)
     for ext in ('.hist', '.pkts'):
